@@ -4,7 +4,9 @@ class Toy(chi.MechanisticModel):
     def __init__(self, n_out=2):
         super().__init__(); self._has_sens=False; self._n_out=n_out
         self._out=['y%d'%i for i in range(n_out)]
-    def enable_sensitivities(self, enabled, parameter_names=None): self._has_sens=bool(enabled)
+    def enable_sensitivities(self, enabled, parameter_names=None):
+        self._has_sens=bool(enabled)
+        self._sens_idx=[0,1] if parameter_names is None else [i for i,n in enumerate(['a','b']) if n in list(parameter_names)]
     def has_sensitivities(self): return self._has_sens
     def n_outputs(self): return self._n_out
     def n_parameters(self): return 2
@@ -20,4 +22,4 @@ class Toy(chi.MechanisticModel):
         d=[(np.exp(-b*t), -a*t*np.exp(-b*t)),(np.ones_like(t), t)]
         for o in range(self._n_out):
             s[:,o,0]=d[o][0]; s[:,o,1]=d[o][1]
-        return y,s
+        return y,s[:,:,getattr(self,'_sens_idx',[0,1])]
